@@ -1791,6 +1791,7 @@ func (p *process) waitResponse(ref gen.Ref, timeout int) (any, error) {
 		timer.Reset(time.Second * time.Duration(timeout))
 	}
 
+	lib.VerifTimer(timer)
 	lib.VerifPoint("wait.block", p)
 retry:
 	select {
